@@ -7,6 +7,10 @@ L3:    the REAL `pavex::server::Server` is run in-process (harness/crates/c16) u
        run of the Lean `step` (trace conformance, decided by the compiled Lean driver) and what the
        model says happened must match what the clients saw. An independent client-side oracle checks
        the property itself. Structural facts the theorems rely on are re-extracted from the source.
+       Interleavings that timing alone (almost) never produces are FORCED: the hook has one-shot failpoints
+       (`verif_trace::gate`) at every point of Worker::run where another thread's action can overtake the
+       worker's next step; a scenario can park a worker (or the acceptor) there, issue the shutdown, wait until
+       the command sits in the parked worker's inbox, and only then let it go on (`gen_park`).
 """
 import json
 import os
@@ -83,6 +87,14 @@ def source_shape():
     yields = bool(g) and _order(g, "while let Some(connection) = connection_inbox.recv().await",
                                 "tokio::task::yield_now().await;", "shutdown_coordinator.shutdown()")
     facts["worker.run Graceful: yields to the LocalSet between the drain loop and the shutdown signal"] = yields
+    if yields:
+        # ... as a statement of the Graceful arm itself (same nesting depth as the drain loop), not inside a
+        # conditional / loop / closure: the model's `YieldPolicy.always`
+        i_loop = g.find("while let Some(connection) = connection_inbox.recv().await")
+        i_yield = g.find("tokio::task::yield_now().await;", i_loop)
+        depth = lambda i: g.count("{", 0, i) - g.count("}", 0, i)
+        fact("worker.run Graceful: that yield is unconditional (a statement at the nesting depth of the drain loop)",
+             depth(i_yield) == depth(i_loop) and g[:i_yield].rstrip(" ").endswith("\n"))
     forced = run[run.find("ShutdownMode::Forced"):] if run else ""
     fact("worker.run Forced: no wait before the completion notification",
          forced and re.match(r"ShutdownMode::Forced\s*=>\s*\{\s*\}", forced) is not None)
@@ -149,6 +161,64 @@ def gen(rng):
     return case
 
 
+CONN_POINTS = ["after_recv", "after_spawn", "acc_after_accept"]
+CALL_POINTS = ["after_shutdown", "after_close", "after_drain", "after_drain_end", "before_signal", "before_notify"]
+
+
+def gen_park(rng):
+    """Scenarios with scheduling control: a worker (or the acceptor) is parked at a failpoint while the shutdown
+    command overtakes what it holds."""
+    n = rng.choice([1, 1, 1, 2, 3])
+    mode = "graceful" if rng.random() < 0.85 else "forced"
+    T = rng.choice([250, 400, 700])
+    kind = rng.choice(["held", "held", "held", "held", "held+queued", "held+queued", "blocked+held", "path", "path"])
+    conns, gates, parks = [], [], []
+    small = lambda: rng.choice([[["f"]], [["f"]], [["s", rng.choice([20, 60])]], []])
+
+    def path_parks(k):
+        for _ in range(k):
+            parks.append({"point": rng.choice(CALL_POINTS), "conn": None, "worker": rng.choice([0, 0, 0, None]),
+                          "after": "parked", "ms": rng.choice([0, 0, 5, 30, 80])})
+
+    if kind in ("held", "held+queued"):
+        for _ in range(rng.choice([0, 0, 1, 2])):
+            conns.append({"pre": rng.choice([[["f"]], [["s", rng.choice([20, 60, T + 300])]], [], [["f"], ["f"]]]),
+                          "post": rng.choice([[], [], [["f"]]])})
+        point = rng.choice(["after_recv", "after_recv", "after_spawn", "after_spawn", "after_spawn", "acc_after_accept"])
+        after = rng.choice(["cmd", "cmd", "cmd", "cmd", "cmd", "call", "before_call"])
+        ms = rng.choice([0, 0, 0, 3, 20, 60]) if after != "call" else rng.choice([0, 30, 30, T + 200])
+        parks.append({"point": point, "conn": len(conns), "after": after, "ms": ms})
+        conns.append({"pre": rng.choice([[["f"]], [["f"]], [["f"]], [["s", rng.choice([20, 60])]], []]), "post": []})
+        if point == "acc_after_accept" and rng.random() < 0.5:
+            conns[-1]["pre"] = []
+        if kind == "held+queued" and point != "acc_after_accept":
+            for _ in range(rng.choice([1, 1, 2, 4])):
+                conns.append({"pre": small(), "post": []})
+        if rng.random() < 0.25:
+            path_parks(1)
+    elif kind == "blocked+held":
+        # connection 0 parks the worker inside a blocking handler, the others queue behind it; once the handler is
+        # released the regular loop takes the next one and is parked right after spawning it, the rest still queued
+        gates.append(rng.choice([-2, -2, 0, 30]))
+        conns.append({"pre": [["b", 0]], "post": []})
+        parks.append({"point": rng.choice(["after_recv", "after_spawn"]), "conn": 1,
+                      "after": rng.choice(["cmd", "cmd", "call"]), "ms": rng.choice([0, 0, 10, 40])})
+        for _ in range(rng.randrange(1, 5)):
+            conns.append({"pre": small(), "post": []})
+    else:
+        if rng.random() < 0.5:
+            gates.append(rng.choice([-2, 0, 30]))
+            conns.append({"pre": [["b", 0]], "post": []})
+        for _ in range(rng.randrange(1, 5)):
+            conns.append({"pre": rng.choice([[["f"]], [["s", rng.choice([20, 60, T + 300])]], [], [["f"], ["f"]]]),
+                          "post": rng.choice([[], [], [["f"]]])})
+        path_parks(rng.choice([1, 1, 2]))
+    for _ in range(rng.choice([0, 0, 0, 1, 2])):
+        conns.append({"pre": rng.choice([[["f"]], [["s", 30]], []]), "post": [], "race": True})
+    return {"workers": n, "mode": mode, "timeout_ms": T, "conns": conns, "gates": gates, "parks": parks,
+            "call_delay_us": rng.choice([0, 0, 0, 200, 1000])}
+
+
 # ---- oracle (needs no model) --------------------------------------------------------------------------
 
 def _idx(trace, pred, start=0):
@@ -156,6 +226,19 @@ def _idx(trace, pred, start=0):
         if pred(trace[i]):
             return i
     return None
+
+
+def _held_as(tr, ci, w):
+    """Where connection `ci` was when worker `w` took its shutdown command (read off the raw trace)."""
+    i_ws = _idx(tr, lambda e: e[0] == "wShutdown" and e[1] == w)
+    if i_ws is None:
+        return "worker %d never took the command" % w
+    before = tr[:i_ws]
+    if _idx(before, lambda e: e[0] == "cPoll" and e[1] == ci) is not None:
+        return "already polled when worker %d took the command" % w
+    if _idx(before, lambda e: e[0] == "wRecv" and e[2] == ci) is not None:
+        return "taken off the queue by worker %d's regular loop (spawned, or about to be) but not yet polled when it took the command" % w
+    return "still queued in worker %d's inbox when it took the command" % w
 
 
 def oracle(case, out):
@@ -211,11 +294,25 @@ def oracle(case, out):
                         blocked_until[w] = None
                     else:
                         blocked_until[w] = max(blocked_until.get(w, 0), r) if r is not None else None
+    # a thread parked at a failpoint: like a blocking handler, until the (measured) moment of its release;
+    # the acceptor's thread also runs the I/O driver of every connection: parked, nothing is read or written
+    for pk in obs.get("parks", []):
+        if not pk["hit"] or pk["released_us"] is None:
+            continue
+        r = pk["released_us"] / 1000.0
+        for w in (range(case["workers"]) if pk["worker"] < 0 else [pk["worker"]]):
+            if blocked_until.get(w, 0) is not None:
+                blocked_until[w] = max(blocked_until.get(w, 0), r)
+    # A connection the ACCEPTOR was parked with: its request reaches the socket while the thread that runs the
+    # I/O driver of every connection is parked, so whether the connection's first poll already sees the request
+    # is decided by a race the failpoint created (readiness is delivered only when the acceptor thread next
+    # turns its driver). "Received before the call" cannot be established from outside: nothing is demanded.
+    acc_held = {p.get("conn") for p in case.get("parks", []) if p["point"] == "acc_after_accept"}
     # (2) every request received before the call is answered in full if its handler finishes in time
-    all_idle = 0.0
+    all_idle = max([0.0] + [pk["released_us"] / 1000.0 for pk in obs.get("parks", []) if pk["hit"] and pk["released_us"] is not None])
     for ci, c in enumerate(case["conns"]):
         o = obs["conns"][ci]
-        if c.get("race") or ci not in worker_of:
+        if c.get("race") or ci not in worker_of or ci in acc_held:
             continue
         w = worker_of[ci]
         for k, rq in enumerate(c.get("pre", [])):
@@ -233,9 +330,9 @@ def oracle(case, out):
             if graceful and fin is not None and fin <= T - MARGIN_MS and o["responses"] <= k:
                 began = _idx(tr, lambda e: e[0] == "hBegin" and e[1] == ci and e[2] == k) is not None
                 return ("graceful shutdown (timeout %d ms): request %d on connection %d was sent before the call "
-                        "(connection %s at worker %d), its handler needs until ~%d ms after the call, "
+                        "(connection %s), its handler needs until ~%d ms after the call, "
                         "but the client never got the response (handler %s)" % (
-                            T, k, ci, "queued/served", w, fin, "ran" if began else "never invoked"))
+                            T, k, ci, _held_as(tr, ci, w), fin, "ran" if began else "never invoked"))
     # (4) it resolves ONCE all workers are idle: not later ...
     racing_work = any(c.get("race") and c.get("pre") for c in case["conns"]) or any(c.get("post") for c in case["conns"])
     if graceful and all_idle is not None and not racing_work and ret_ms > min(T, all_idle) + EPS_MS:
@@ -250,6 +347,20 @@ def oracle(case, out):
     if not obs["teardown"]:
         return "a worker/acceptor thread or a connection task was still alive 4 s after everything was released"
     return None
+
+
+HARNESS_EVENTS = ("gate", "park", "unpark")   # recorded by the harness / the failpoints, not part of the model's alphabet
+
+
+def worker_met(mo):
+    """What each worker held at the moment it took its Graceful command (from the model's replay)."""
+    out = []
+    for m in mo.get("at_wshutdown") or []:
+        if m["mode"] != "graceful":
+            continue
+        held = [k for k in ("queued", "spawned", "idle", "inflight") if m[k] > 0]
+        out.append("+".join(held) if held else "nothing")
+    return out
 
 
 def classify(case, mout):
@@ -304,8 +415,9 @@ def evaluate(R, cases, cap, yields):
         except Exception:
             io = {"r": "unparseable", "raw": o}
         iouts.append(io)
-        tr = [e for e in io.get("trace", []) if e[0] != "gate"]
-        mlines.append(json.dumps({"cfg": {"n": c["workers"], "cap": cap, "yield": yields}, "conns": len(c["conns"]), "trace": tr}))
+        tr = [e for e in io.get("trace", []) if e[0] not in HARNESS_EVENTS]
+        mlines.append(json.dumps({"cfg": {"n": c["workers"], "cap": cap, "yield": "always" if yields else "never"},
+                                  "conns": len(c["conns"]), "trace": tr}))
     try:
         mouts = [json.loads(x) for x in pxvlib.run_model("server", mlines)]
     except Exception as e:
@@ -321,7 +433,7 @@ def disagreement(case, io, mo):
         return None
     if mo.get("r") != "ok":
         return "model driver: %s" % mo.get("r")
-    tr = [e for e in io["trace"] if e[0] != "gate"]
+    tr = [e for e in io["trace"] if e[0] not in HARNESS_EVENTS]
     if not mo["conforms"]:
         i = mo["bad_at"]
         return "trace is not a run of the model: event #%d %s impossible after %s" % (
@@ -365,7 +477,8 @@ def run(R):
         "loopback TCP on this machine; every time bound carries a %d ms allowance" % EPS_MS,
     ]
     R.coverage["trusted_base"] += [
-        "cfg(pavex_verif) trace points in runtime/pavex/src/server/{server_handle,worker,verif_trace}.rs (hook commit); trace conformance is testing, not proof",
+        "cfg(pavex_verif) trace points and failpoints (verif_trace::gate) in runtime/pavex/src/server/{server_handle,worker,verif_trace}.rs (hook commits); trace conformance is testing, not proof; "
+        "a failpoint only blocks a thread (std Condvar, 5 s cap) between two statements: every execution with a failpoint is an execution the unmodified code can exhibit with an unlucky scheduler",
         "tools/checks/c16.py source_shape(): regex extraction of the structural facts (poll order, close-before-drain, yield-before-signal, queue capacity)",
     ]
     facts, bad_facts, cap, yields = source_shape()
@@ -380,6 +493,7 @@ def run(R):
     if cap is None:
         cap = 15
     n = 110 if R.tier == "quick" else 1500
+    n_park = 70 if R.tier == "quick" else 800
     if R.replay:
         rp = json.load(open(R.replay))["replay"]
         base = rp.get("cases") or ([rp["case"]] if "case" in rp else [])
@@ -389,8 +503,10 @@ def run(R):
         cases = [json.loads(l) for l in pxvlib.corpus_lines(R.prop)]
         n_corpus = len(cases)
         cases += [gen(R.rng) for _ in range(n)]
+        cases += [gen_park(R.rng) for _ in range(n_park)]
     iouts, mouts = evaluate(R, cases, cap, yields)
     failures, disagreements, seen, hist, met = [], [], set(), {}, {}
+    wmet, park_hits, park_armed = {}, {}, {}
     skipped = 0
     for i, (c, io, mo) in enumerate(zip(cases, iouts, mouts)):
         kind = io.get("r", "?")
@@ -408,8 +524,16 @@ def run(R):
         d = disagreement(c, io, mo)
         if d:
             disagreements.append((i, d))
+        for pk in io["obs"].get("parks", []):
+            park_armed[pk["point"]] = park_armed.get(pk["point"], 0) + 1
+            if pk["hit"]:
+                park_hits[pk["point"]] = park_hits.get(pk["point"], 0) + 1
+        if mo.get("r") == "ok":
+            for h in worker_met(mo):
+                wmet[h] = wmet.get(h, 0) + 1
         if nontrivial(c, io, mo):
-            key = json.dumps([c["workers"], c["mode"], sorted((x["phase"], x["worker"]) for x in mo["at_shutdown"])])
+            key = json.dumps([c["workers"], c["mode"], sorted((x["phase"], x["worker"]) for x in mo["at_shutdown"]),
+                              sorted(worker_met(mo))])
             seen.add(key)
             for ph in classify(c, mo):
                 met[ph] = met.get(ph, 0) + 1
@@ -419,10 +543,15 @@ def run(R):
         "rule": "generated loopback scenarios on the real server: 1-8 workers x {graceful(250/400/700 ms), forced} x {plain load, worker thread parked by a blocking handler "
                 "with connections queued behind it, queue overflow onto the next worker} x connections {no request, fast, async sleep shorter/longer than the timeout, keep-alive "
                 "with a second request, request sent after the call, connection opened while shutting down} x gate release {before the call, 0-80 ms after, after the timeout, never} "
-                "x optional second shutdown call; non-trivial = the shutdown command met at least one connection that was queued, spawned-unpolled, mid-handler or idle; "
+                "x optional second shutdown call; PLUS scheduling control (gen_park): a worker parked at a failpoint right after it took a connection off its queue / right after it "
+                "spawned it (the acceptor: right after accept) with {nothing, more connections} queued behind it, released {once the shutdown command sits in its inbox (+0-60 ms), "
+                "k ms after the call, after the timeout, before the call}, and workers parked on the shutdown path (after taking the command, after close(), inside and after the "
+                "drain loop, between the yield and the signal, before the notification); non-trivial = the shutdown command met at least one connection that was queued, spawned-unpolled, mid-handler or idle; "
                 "distinct by (workers, mode, multiset of (connection phase, worker) at the moment the acceptor took the command)",
         "outcome_histogram": hist, "input_stats": {"corpus": n_corpus, "generated": len(cases) - n_corpus, "skipped_inconclusive": skipped},
         "connection_phases_met_by_the_command": met,
+        "held_by_a_worker_when_it_took_the_graceful_command": wmet,
+        "failpoints": {"armed": park_armed, "a_thread_was_parked_there": park_hits},
         "model_vs_impl_disagreements": len(disagreements), "impl_vs_oracle_failures": len(failures),
     })
     step = max(1, len(cases) // 4)
@@ -430,6 +559,18 @@ def run(R):
                              for i in range(0, len(cases), step)][:4]
     R.log("cases=%d nontrivial=%d disagreements=%d oracle_failures=%d hist=%s met=%s" % (
         len(cases), len(seen), len(disagreements), len(failures), hist, met))
+    R.log("worker took Graceful holding: %s; failpoints hit: %s" % (wmet, park_hits))
+    # the scheduling control must be effective: the interleavings it exists for were actually produced
+    have = {"spawned, empty queue": sum(v for k, v in wmet.items() if "spawned" in k and "queued" not in k),
+            "spawned and queued": sum(v for k, v in wmet.items() if "spawned" in k and "queued" in k)}
+    R.coverage["forced_interleavings"] = have
+    if not R.replay and not failures and not disagreements:
+        need = {"spawned, empty queue": 5, "spawned and queued": 2}
+        missing = {k: have[k] for k, v in need.items() if have[k] < (v if R.tier == "quick" else 10 * v)}
+        if missing:
+            R.violation("scheduling control is ineffective: too few scenarios in which a worker took the Graceful command while holding "
+                        "only spawned-but-unpolled connections / those plus queued ones: %s (failpoints hit: %s)" % (missing, park_hits),
+                        {"held_by_worker": wmet, "failpoints": park_hits}, no_failing_input=True)
     if skipped > max(3, len(cases) // 5):
         R.violation("too many inconclusive scenarios (%d of %d): the tie is not exercising the code" % (skipped, len(cases)),
                     {"histogram": hist}, no_failing_input=True)
@@ -460,7 +601,7 @@ def run(R):
     if broken and not unknown_failure:
         # search mode (DESIGN 3.3): the property is no longer shown to hold; look for a failing input
         R.log("search mode:", " | ".join(broken)[:300])
-        extra = [gen(R.rng) for _ in range(150 if R.tier == "quick" else 600)]
+        extra = [(gen if k % 3 else gen_park)(R.rng) for k in range(150 if R.tier == "quick" else 600)]
         xi, _ = evaluate(R, extra, cap, yields)
         found = None
         for c, io in zip(extra, xi):
